@@ -165,8 +165,20 @@ def r12d(ctx):
         bt = m.method(fq, "build_tree")
         if bt is None or info["default_formatter"] not in default:
             continue
+        def may_be_none(fn_node, e):
+            if isinstance(e, ast.Constant) and e.value is None:
+                return True
+            if isinstance(e, ast.IfExp):
+                return may_be_none(fn_node, e.body) or may_be_none(fn_node, e.orelse)
+            if isinstance(e, ast.Name):
+                for a in walk_no_nested(fn_node):
+                    if isinstance(a, (ast.Assign, ast.AnnAssign)) and a.value is not None and not isinstance(a.value, ast.Name):
+                        tgts = a.targets if isinstance(a, ast.Assign) else [a.target]
+                        if any(isinstance(t, ast.Name) and t.id == e.id for t in tgts) and may_be_none(fn_node, a.value):
+                            return True
+            return False
         reads_empty_as_null = any(isinstance(c, ast.Call) and (call_name(c) or "").endswith("build_tree") and c.args
-                                  and isinstance(c.args[0], ast.Constant) and c.args[0].value is None
+                                  and may_be_none(f_.node, c.args[0])
                                   for f_ in loader_chain(m, bt) for c in walk_no_nested(f_.node))
         if reads_empty_as_null:
             scope |= {x.q for x in default[info["default_formatter"]].walk()}
